@@ -21,7 +21,10 @@ def register(PROPS):
                  'exactly the selected streams (none without ORGANIZER+ATTENDEE or with nothing selected), removed every temporary file '
                  'it made, wrote one journal entry with the job\'s true exit status or signal and start <= end inside the observed '
                  'run, and started the command exactly once through the requested shell in the requested directory with the '
-                 'requested umask and stdin.  Layer (b) is exhaustive over its schedule alphabet for the rows that put echsx\'s loop '
+                 'requested umask and stdin.  The same holds for every row when OFILE/EFILE are given as relative names next to a '
+                 'LOCATION (the rows whose file doubles as the mail file read it back by name after the job), and for the umask menu '
+                 '{0, 022, 077, 0377, 0776, 0777} on rows without mail: the job finds the requested umask and the files echsx creates '
+                 'for it have mode 0666 & ~umask.  Layer (b) is exhaustive over its schedule alphabet for the rows that put echsx\'s loop '
                  'between job and destinations (R5 R9 R14 R15 R17 and N1).',
         'note': 'Layer (a) does not own the order in which the kernel shows pipe data and SIGCHLD to echsx; its oracle is insensitive to '
                 'it and layer (b) owns exactly that order, but delivers the exit through ev_feed_event on the ev_child echsx registered '
@@ -33,10 +36,10 @@ def register(PROPS):
                 'routes it somewhere (layer a) / the script has at least one chunk and was played to its end (layer b)',
         'bound': {
             'quick': 'layer (a): 24 rows x {alt50, big} x exit 0; 8 knobs (cwd, umask, shell, IFILE, no ORGANIZER, no ATTENDEE, MAIL-RUN, '
-                     'two ATTENDEEs) x 5 rows; SIGTERM/SIGKILL x 2 rows (92 runs).  layer (b): 6 pipe rows x all interleavings of <= 2 O, '
+                     'two ATTENDEEs) x 5 rows; SIGTERM/SIGKILL x 2 rows (92 runs); relative OFILE/EFILE + LOCATION x 24 rows; 6 umasks x rows R12 R16 R20.  layer (b): 6 pipe rows x all interleavings of <= 2 O, '
                      '<= 2 E + X x all batchings (165 scripts) x chunk sizes {1, 4096, 65536} equal on both streams (2970 schedules)',
             'thorough': 'layer (a): 24 rows x 6 jobs (silent, 3 lines out, 3 lines err, 50 alternating lines, 200 KiB to each stream in 4 KiB '
-                        'writes, stdin echo) x exit {0, 3, SIGTERM, SIGKILL}; 8 knobs x 24 rows x {alt50, cat} (960 runs).  layer (b): 6 '
+                        'writes, stdin echo) x exit {0, 3, SIGTERM, SIGKILL}; 8 knobs x 24 rows x {alt50, cat} (960 runs); relative OFILE/EFILE + LOCATION x 24 rows x {alt50, big}; 6 umasks x the 6 rows without mail.  layer (b): 6 '
                         'pipe rows x all interleavings of <= 3 O, <= 3 E + X x all batchings (2229 scripts) x all 9 pairs of chunk sizes '
                         '{1, 4096, 65536}; the 18 pipe-less rows x <= 1+1 chunks (120600 schedules)',
         },
@@ -48,7 +51,9 @@ def register(PROPS):
               ['no=3', 'ne=3', 'sizes=all', 'rows=all'], label='controlled-loop', interp=_PY, shards=16),
         ],
         'assumptions': [
-            'the execution request is laid out the way echsd writes it (one VTODO per run, absolute OFILE/EFILE paths, numeric SETUID of the invoking user)',
+            'the execution request is laid out the way echsd writes it (one VTODO per run, absolute OFILE/EFILE paths except in the relative-name family, numeric SETUID of the invoking user)',
+            'a relative OFILE/EFILE is looked for in the requested working directory (LOCATION), failing that in the directory echsx was started in; what is judged is its content and the mail body',
+            'umask menu: a file echsx creates on the job\'s behalf (OFILE/EFILE) is subject to the requested umask like a redirection made by the job\'s shell would be; rows with mail are left out of the menu because under umask 0777 an unprivileged echsx could not read its own mail file back',
             'stdout bytes are lower-case letters and newline, stderr bytes upper-case letters and tab, so every byte of a shared file or mail body is attributable; real jobs write whole 64-byte lines in writes of at most 4096 bytes',
             'layer (b): libev reports a child\'s exit no earlier than in the poll that follows the exit (exit fed in the check phase), a job blocked in write(2) does nothing else until the write is through, pipe capacity is the kernel default (64 KiB)',
             'journal times are judged against the interval in which the driver saw the run (whole seconds), not against a virtual clock',
